@@ -100,6 +100,14 @@ CLAIMS = {
             "the divisibility test on f(root) of the same root. ContinuedFraction is the Euclid recurrence and appends (q, r, t) after the update.",
             "Not decided (runtime values): the rational solver (echelon_form's row moves), completeness of the small-root finders, Sieve, PseudoAverage, Bias, UniformSumCdf, CombinedPValue numerics; product trees are under C03.",
             "DESIGN.md section 3 C19"),
+    "C06": ("other", "predicate-region equivalence of extracted path conditions (integer comparisons + opaque boolean atoms), constant folding of tables, for-all loop shape analysis, string-grammar writer/reader agreement",
+            "For CheckSizes, CheckExponents, CheckWeakCurve, CheckValidECKey, EcCurve.IsValidPublicKey, OnCurve, CheckROCA, CheckROCAVariant, both ROCA detectors and "
+            "CheckOpensslDenylist the disjunction of path conditions under which the verdict is positive is extracted and proved equivalent to the specification predicate "
+            "on every region / boolean assignment (flag set <=> criterion, on the same key). Prime tables equal the checker's sieve; the discrete-log membership loop "
+            "enumerates the whole cyclic group compare-then-multiply; the denylist key grammar agrees between check and storage (evaluated on an abstract 40-digit digest); "
+            "keypair table key / seed reconstruction / regeneration size; proto CurveType vs CURVE_FACTORY exhaustiveness with binary-field curves mapped to None.",
+            "Not decided: that the shipped keypair table is complete for all covered seeds (binary data; regeneration needs AES at run time). Some structure checks of __init__ bodies compare normalised statements.",
+            "DESIGN.md section 3 C06"),
     "C16": ("other", "typestate / who-may-write analysis over the AST + symbolic path walk of all 24 Check bodies",
             "Decides, for every path of every Check body in the package, that each loop iteration records exactly one "
             "result entry on that iteration's artifact with an entry created in the same iteration, that the positive flag, "
